@@ -132,3 +132,83 @@ func VerifC27Deliver() {
 	}
 	rt.Reach("end")
 }
+
+// VerifC27Batch: one network packet carries two publish entries: a forged one (claimed sender = victim,
+// body and signature by another key, or a tampered copy) followed by an honest one. Only the honest
+// entry reaches the subscriber, attributed to its real signer, and only the honest entry is forwarded.
+func VerifC27Batch() {
+	m := c27Node([]string{"a"})
+	sk, _, seed := c27Key("seed")
+	honest, _, err := pubmessage.NewPubMessage("a", sk, hash.HashType_HashType_SHA256, []byte{1})
+	rt.Assert("honest message", err == nil)
+	sk2, pub2, seed2 := c27Key("seed2")
+	rt.Assume(rt.Not(rt.BytesEq(seed, seed2))) // the victim is another identity than the publisher
+	victim, _ := peer.IDFromPublicKey(pub2)
+	var bad *peer.SignedMsg
+	switch rt.Choose("forgery", 3) {
+	case 0: // claims the victim as sender, signed by the honest publisher's key over another body
+		other, _, _ := pubmessage.NewPubMessage("a", sk, hash.HashType_HashType_SHA256, []byte{2})
+		bad = &peer.SignedMsg{FromPeerId: victim.String(), Signature: other.Signature, Data: other.Data}
+	case 1: // the honest entry with its body altered
+		bad = &peer.SignedMsg{FromPeerId: honest.FromPeerId, Signature: honest.Signature, Data: append([]byte{}, honest.Data...)}
+		bad.Data[len(bad.Data)-1] ^= 1
+	case 2: // 64 arbitrary signature bytes under the victim's name
+		inner, _, _ := pubmessage.NewPubMessage("a", sk2, hash.HashType_HashType_SHA256, []byte{3})
+		bad = &peer.SignedMsg{FromPeerId: victim.String(), Signature: &peer.Signature{HashType: hash.HashType_HashType_SHA256, SigData: rt.Bytes("sig", 64, 64)}, Data: inner.Data}
+		rt.Assume(rt.Not(rt.BytesEq(bad.Signature.SigData, inner.Signature.SigData)))
+	}
+	batch := []*peer.SignedMsg{bad, honest}
+	if rt.Choose("order", 2) == 1 {
+		batch = []*peer.SignedMsg{honest, bad}
+	}
+	s := &streamHandler{m: m, le: m.le, peerID: peer.ID("\x00\x01P"), ctx: context.Background()}
+	s.handlePublish(batch)
+	rt.Quiesce()
+	signer, derr := peer.IDB58Decode(honest.FromPeerId)
+	rt.Assert("signer id", derr == nil)
+	got := rt.Logged("delivered:a")
+	rt.Assert("exactly the honest entry is delivered", len(got) == 1)
+	for _, v := range got {
+		dm := v.(pubsub.Message)
+		rt.Assert("the delivered message is attributed to the key that signed it", dm.GetFrom() == signer)
+		rt.Assert("the delivered payload is the honest one", rt.BytesEq(dm.GetData(), []byte{1}))
+	}
+	rt.Assert("exactly one entry is forwarded", len(m.publishCh) == 1)
+	if len(m.publishCh) == 1 {
+		f := <-m.publishCh
+		rt.Assert("the forwarded entry is the honest, verified one", f.msg == honest)
+	}
+	rt.Reach("end")
+}
+
+// VerifC27Unsubscribed: a channel the node subscribed to and released again before the router ever
+// announced it is not a subscribed channel: authentic traffic for it is neither delivered nor forwarded.
+func VerifC27Unsubscribed() {
+	rt.SchedBound(0, false)
+	m := c27Node(nil)
+	ctx, cancel := context.WithCancel(context.Background())
+	rt.Go("router", func() { _ = m.Execute(ctx) })
+	rt.Quiesce()
+	sk, _, _ := c27Key("seed")
+	sub, err := m.AddSubscription(ctx, sk, "a")
+	rt.Assert("subscribe", err == nil)
+	if rt.Choose("announcedFirst", 2) == 1 {
+		rt.Quiesce()
+		rt.FireTickers()
+		rt.Quiesce()
+	}
+	sub.Release()
+	rt.Quiesce()
+	rt.FireTickers()
+	rt.Quiesce()
+	pub, _, _ := c27Key("seed2")
+	msg, _, err := pubmessage.NewPubMessage("a", pub, hash.HashType_HashType_SHA256, []byte{9})
+	rt.Assert("message", err == nil)
+	s := &streamHandler{m: m, le: m.le, peerID: peer.ID("\x00\x01P"), ctx: ctx}
+	n0 := len(m.publishCh)
+	s.handlePublish([]*peer.SignedMsg{msg})
+	rt.Assert("traffic for a channel without a local subscription is not queued for forwarding", len(m.publishCh) == n0)
+	cancel()
+	rt.Quiesce()
+	rt.Reach("end")
+}
